@@ -790,7 +790,11 @@ func (r *Runner) execDec(op *OpSpec, st *Step) *Rec {
 	rt := corpus.Types[op.Type]
 	dst := reflect.New(rt)
 	if op.Prefill && !sd.Rejected() {
-		pw := model.GenValue(r.C, sd, model.Mix(op.VSeed, 0x11), model.VOpt{Budget: 200})
+		vo := model.VOpt{Budget: 200}
+		if r.Spec.Prof == "C09" {
+			vo = model.VOpt{Budget: 400, Present: 0.97}
+		}
+		pw := model.GenValue(r.C, sd, model.Mix(op.VSeed, 0x11), vo)
 		model.Realise(r.C, sd, pw, dst.Elem())
 	}
 	if in == nil {
@@ -880,6 +884,8 @@ func (r *Runner) execDecSeq(op *OpSpec, st *Step) *Rec {
 	dst := reflect.New(rt)
 	res := &Rec{Cls: "ok", Tag: "decseq/" + op.Fault + "/" + sd.Shape()}
 	acc := make([]byte, 0, 256)
+	var earlier [][]byte
+	var earlierSnap []string
 	for k := 0; k < op.Omit; k++ {
 		sub := *op
 		sub.Omit = 0
@@ -889,8 +895,22 @@ func (r *Runner) execDecSeq(op *OpSpec, st *Step) *Rec {
 			sub.Fault = "none"
 		}
 		m := r.buildMessage(&sub)
-		in := r.guardedFor(st.Task, len(m.bytes)).place(m.bytes)
+		var in []byte
+		if r.Spec.Prof == "C16" {
+			in = append(make([]byte, 0, len(m.bytes)), m.bytes...) // every message keeps its own buffer
+		} else {
+			in = r.guardedFor(st.Task, len(m.bytes)).place(m.bytes)
+		}
 		one := r.decodeOnce(&sub, st, sd, m, in, dst)
+		if r.Spec.Prof == "C16" {
+			for i, p := range earlier {
+				if model.Digest(p) != earlierSnap[i] {
+					r.violation("C16", "C16/decode-modified-input/earlier-buffer", fmt.Sprintf("DecodeObject(%s) of message %d into the same object modified the input buffer of message %d (%s)", op.Type, k, i, m.desc), st)
+					earlierSnap[i] = model.Digest(p)
+				}
+			}
+			earlier, earlierSnap = append(earlier, in), append(earlierSnap, model.Digest(in))
+		}
 		acc = append(acc, one.D...)
 		acc = append(acc, ';')
 		res.N += one.N
@@ -977,6 +997,23 @@ type dstCheck struct{ before, after string }
 
 // ---------------------------------------------------------------- legacy controls (C17)
 
+// The legacy controls run in visible mode like the codec calls: whatever synchronisation they perform (none on the
+// pinned tree, where they are empty) is honoured by the race detector, and whatever memory they touch is checked.
+func pretouch(v interface{}, opts ...frugal.Option) (err error) {
+	verifsim.Visible(func() { err = frugal.Pretouch(v, opts...) })
+	return
+}
+
+func setDepth(d int) (got int) {
+	verifsim.Visible(func() { got = frugal.SetMaxInlineDepth(d) })
+	return
+}
+
+func setIL(d int) (got int) {
+	verifsim.Visible(func() { got = frugal.SetMaxInlineILSize(d) })
+	return
+}
+
 func (r *Runner) execLegacy(op *OpSpec, st *Step) *Rec {
 	res := &Rec{Cls: "ok", Tag: "legacy/" + op.Legacy}
 	r.st(st).legacy++
@@ -1012,57 +1049,57 @@ func (r *Runner) execLegacy(op *OpSpec, st *Step) *Rec {
 			ts.samples = append(ts.samples, sample)
 			ts.sampleSnaps = append(ts.sampleSnaps, model.Digest(model.CanonValue(sample.Elem())))
 			for _, x := range []interface{}{rt, reflect.PtrTo(rt), sample.Interface(), reflect.Zero(reflect.PtrTo(rt)).Interface(), sample.Elem().Interface()} {
-				if err := frugal.Pretouch(x); err != nil {
+				if err := pretouch(x); err != nil {
 					fail("Pretouch returned " + err.Error())
 				}
 			}
 		case "pretouch-opts":
 			for k, x := range []interface{}{rt, reflect.PtrTo(rt), reflect.New(rt).Interface()} {
-				if err := frugal.Pretouch(x, frugal.WithMaxInlineDepth(int(op.VSeed%7)), frugal.WithMaxInlineILSize(int(op.VSeed%100000)),
+				if err := pretouch(x, frugal.WithMaxInlineDepth(int(op.VSeed%7)), frugal.WithMaxInlineILSize(int(op.VSeed%100000)),
 					frugal.WithMaxPretouchDepth(int(op.VSeed>>3)%5-1+k%2)); err != nil {
 					fail("Pretouch returned " + err.Error())
 				}
 			}
 		case "pretouch-ptrptr":
 			pp := reflect.PtrTo(reflect.PtrTo(rt))
-			if err := frugal.Pretouch(pp); err != nil {
+			if err := pretouch(pp); err != nil {
 				fail("Pretouch(**T type) returned " + err.Error())
 			}
-			if err := frugal.Pretouch(reflect.New(pp).Elem().Interface()); err != nil {
+			if err := pretouch(reflect.New(pp).Elem().Interface()); err != nil {
 				fail("Pretouch(**T value) returned " + err.Error())
 			}
 			p := reflect.New(rt)
 			ppv := reflect.New(p.Type())
 			ppv.Elem().Set(p)
-			if err := frugal.Pretouch(ppv.Interface()); err != nil {
+			if err := pretouch(ppv.Interface()); err != nil {
 				fail("Pretouch(**T value) returned " + err.Error())
 			}
 		case "pretouch-nil":
-			if err := frugal.Pretouch(nil); err != nil {
+			if err := pretouch(nil); err != nil {
 				fail("Pretouch(nil) returned " + err.Error())
 			}
 		case "pretouch-nonstruct":
 			for _, x := range []interface{}{reflect.TypeOf(0), reflect.TypeOf(""), reflect.TypeOf([]int{}), 42, "x", reflect.TypeOf((*error)(nil))} {
-				if err := frugal.Pretouch(x); err != nil {
+				if err := pretouch(x); err != nil {
 					fail("Pretouch(non-struct) returned " + err.Error())
 				}
 			}
 		case "nojit":
-			frugal.NoJIT(op.VSeed%2 == 0)
+			verifsim.Visible(func() { frugal.NoJIT(op.VSeed%2 == 0) })
 		case "setdepth":
 			for _, d := range []int{0, 1, -1, int(op.VSeed % 1000), 1 << 30} {
-				if got := frugal.SetMaxInlineDepth(d); got != d {
+				if got := setDepth(d); got != d {
 					fail(fmt.Sprintf("SetMaxInlineDepth(%d) returned %d", d, got))
 				}
 			}
 		case "setil":
 			for _, d := range []int{0, 1, -1, int(op.VSeed % 100000), 1 << 30} {
-				if got := frugal.SetMaxInlineILSize(d); got != d {
+				if got := setIL(d); got != d {
 					fail(fmt.Sprintf("SetMaxInlineILSize(%d) returned %d", d, got))
 				}
 			}
 		case "getstats":
-			_ = fdebug.GetStats()
+			verifsim.Visible(func() { _ = fdebug.GetStats() })
 		case "options":
 			_ = frugal.WithMaxInlineDepth(3)
 			_ = frugal.WithMaxInlineILSize(1000)
